@@ -1,6 +1,6 @@
 ENTRY = {
     "level": "proof",
-    "families": [fam("C30", 300, 12000)],
+    "families": [fam("C30", 300, 3000)],
     "gen_items": ["DataType", "exec_coerce", "plan_coerce"],
     "extra_props": ["IQE.Props.C30Gen"],
     "rule": "sqlgen statements (strata filter, case, join, agg, distinct, setop, cte, values, subquery, sort_limit rotating; generated catalogs of 1-4 tables, "
